@@ -183,6 +183,16 @@ Definition add_entries (w : wl) (entry source : string) (f : cell -> cell) (over
         end
     end.
 
+(* wl[id, name] = v  (__setitem__): KeyError when the id or the name is unknown *)
+Definition set_cell (w : wl) (id : Z) (s : string) (v : cell) : option wl :=
+  match resolve_item (w_names w) s, row_of (w_data w) id with
+  | Some k, Some _ =>
+      Some {| w_names := w_names w; w_ri := w_ri w; w_ci := w_ci w;
+              w_data := map (fun r => if fst r =? id then (fst r, upd k v (snd r)) else r) (w_data w);
+              w_index := w_index w |}
+  | _, _ => None
+  end.
+
 (* name-level accessors: the entry argument is a string looked up in _header;
    '' selects the ids *)
 Definition entry_arg (w : wl) (s : string) : option (option nat) :=
